@@ -529,6 +529,10 @@ func checkProbeForwarders(r *core.Result, prog *core.Program, pk *packages.Packa
 					if cf, ok := calleeFamily(fn); !ok || cf != "v2" {
 						okRets = false
 						why = append(why, "the call is not into the v2 runtime")
+					} else if sig, ok := fn.Type().(*types.Signature); ok && sig.Recv() != nil {
+						// proto.MarshalOptions{…}.Marshal etc.: options change the result (cached sizes, determinism, partial)
+						okRets = false
+						why = append(why, "the call goes through an options value ("+types.ExprString(c.Fun)+") instead of the runtime's plain "+want)
 					}
 				}
 				return true
